@@ -32,6 +32,11 @@ BEHAVIOURS = {
     "kill9_d3":      ('gen > "$3"; kill -9 $$',               ("old", -9)),
     "killterm_mid":  ('gen | head -c 7; kill -TERM $$; gen',  ("old", -15)),
     "false_first":   ('false; gen',                           ("old", 1)),
+    "stdout_empty_d3": ('gen; : > "$3"',                      ("old", 207)),
+    "d3_empty_only": (': > "$3"',                             ("empty", 0)),
+    "d3_then_stdout_exit0": ('gen > "$3"; echo extra',        ("old", 207)),
+    "stdout_then_rm_target": ('rm -f "$1"; gen',              ("new", 0)),
+    "exit_after_d3_signal0": ('gen > "$3"; kill -0 $$',       ("new", 0)),
 }
 SIZES = {"one_line": 1, "big": 20000}
 PRIORS = ["absent", "user_file", "generated"]
@@ -81,6 +86,11 @@ def run_case(bindir, beh, size, prior):
                 bad.append("target is not exactly the script's output (%s bytes vs %s expected)" % (None if new is None else len(new), len(payload)))
             if rc != 0:
                 bad.append("successful job but command exited %d" % rc)
+        elif exp == "empty":
+            if new != "":
+                bad.append("script created an empty $3 but target is %r" % (None if new is None else new[:20]))
+            if rc != 0:
+                bad.append("command exited %d" % rc)
         elif exp == "gone":
             if new is not None:
                 bad.append("script produced no output but target exists")
